@@ -21,7 +21,9 @@ func NewTimedTransaction(ctx context.Context, timeout time.Duration, finally Fin
 	t := &TimedTransaction{
 		TransactionBase: NewTransactionBase(finally),
 	}
-	t.timer = time.AfterFunc(timeout, func() { t.Fail(ErrTimeout) })
+	// The timer function must not touch t.timer: with a zero or very short
+	// timeout it can run before the assignment below completes.
+	t.timer = time.AfterFunc(timeout, func() { t.TransactionBase.Fail(ErrTimeout) })
 	go func() {
 		select {
 		case <-ctx.Done():
